@@ -134,8 +134,11 @@ def run(ctx):
         ("R7", "an ERROR (wildcard) pattern kind is never inserted into a potential-kind set"),
         ("R8", "the literal file prefilter depends on the pattern's strictness consistently with match_terminal"),
         ("R9", "overlap filters over byte ranges separate start < previous end from start >= previous end (half-open ranges: an adjacent match is not nested)"),
+        ("R10", "scanning many rules together selects every applicable rule: one bucket per language in RuleCollection (readers take the first bucket), whole-collection accessors visit both storages"),
     ):
         ctx.rule(rid, text)
+    from . import rulecoll
+    rulecoll.invariants(ctx, "R10", which=("rc2", "rc3"))
     impls = matcher_impls(prog)
     ctx.floor("R1", "Matcher impls", len(impls), 22)
     r1_r2(ctx, impls)
